@@ -31,6 +31,10 @@ def plain_tok(ins, push0):
     return "%s %s" % (op, arg)
 
 
+NEVER_SPLITS = {"POP", "ADD", "MUL", "SUB", "DIV", "SDIV", "MOD", "SMOD", "ADDMOD", "MULMOD", "EXP", "SIGNEXTEND", "LT",
+                "GT", "SLT", "SGT", "EQ", "ISZERO", "AND", "OR", "XOR", "NOT", "BYTE", "SHL", "SHR", "SAR"} | set(E.ENV0)
+
+
 def filler_blocks(lengths=range(18, 28), max_special=3):
     kinds = [B.I("MSTORE"), B.I("SSTORE"), B.I("LOG0")]
     for n in lengths:
@@ -104,6 +108,12 @@ def check_block(ctx, block):
         else:
             if not joined or sub[0] != joined[-1]:
                 return {"clause": "split-instruction-not-shared", "index": i, "subs": subs}, None
+            op = sub[0].split(" ")[0]
+            if op in NEVER_SPLITS or op.startswith(("DUP", "SWAP", "PUSH")):
+                # sub-blocks meet at their shared SPLITTING instruction: under no policy is a stack operation or a
+                # pure computation one
+                return {"clause": "joined-at-non-splitting-instruction", "index": i, "instruction": sub[0],
+                        "subs": subs}, None
             joined.extend(sub[1:])
     notes = []
     if joined != body_txt:
@@ -222,6 +232,35 @@ def work(ctx, block):
     return {"viol": v, "stats": st}
 
 
+def long_filler_blocks(lengths=(40, 49)):
+    """Blocks about twice the partition threshold with three or four stores/splits whose distances cross the
+    threshold in every combination (short-long, long-short, long-long): the running offset of the splitter is only
+    exercised when a split follows a long gap."""
+    kinds = [B.I("MSTORE"), B.I("SSTORE"), B.I("LOG0")]
+    seen = set()
+    for n in lengths:
+        for a in (0, 1, 2, 5):
+            for g1 in (1, 5, 21, 22, 23, 25):
+                for g2 in (1, 3, 10, 21, 22, 23):
+                    for g3 in (None, 2, 22):
+                        pos = [a, a + g1, a + g1 + g2] + ([a + g1 + g2 + g3] if g3 else [])
+                        if pos[-1] >= n:
+                            continue
+                        blk = []
+                        for i in range(n):
+                            if i in pos:
+                                blk.append(kinds[(i + pos.index(i)) % 3])
+                            else:
+                                blk.append(B.P(1) if i % 2 == 0 else B.I("POP"))
+                        try:
+                            need, _ = E.need_delta(blk)
+                        except E.BadInstr:
+                            continue
+                        if need <= 12 and tuple(blk) not in seen:
+                            seen.add(tuple(blk))
+                            yield blk
+
+
 def _vocab():
     from . import families
     return families.vocabulary_family()
@@ -233,11 +272,13 @@ def unit_sets(tier):
         yield "filler(18..27,<=2)", list(filler_blocks(range(18, 28), 2))
         yield "filler(21..24,3)", [b for b in filler_blocks(range(21, 25), 3)]
         yield "deep-stack", list(deep_blocks())
+        yield "long-filler(40)", list(long_filler_blocks((40,)))
         yield "vocabulary-family", _vocab()
     else:
         yield "tree(SPLIT13,5)", list(B.tree(ALPHA, 5, max_need=8))
         yield "filler(18..27,<=3)", list(filler_blocks(range(18, 28), 3))
         yield "deep-stack", list(deep_blocks(list(range(0, 40)) + [98, 99, 100, 101, 102]))
+        yield "long-filler(40,49)", list(long_filler_blocks((40, 49)))
         yield "vocabulary-family", _vocab()
 
 
